@@ -208,3 +208,12 @@ func SoundSigners(msg, att []byte, enabled [][]byte) int {
 	}
 	return len(ok)
 }
+
+// NegatePub returns the uncompressed encoding of -P (same X, Y' = p - Y): a different valid key.
+func NegatePub(pub []byte) []byte {
+	out := append([]byte(nil), pub...)
+	y := new(big.Int).SetBytes(pub[33:65])
+	y.Sub(secp256k1.S256().P, y)
+	y.FillBytes(out[33:65])
+	return out
+}
